@@ -156,9 +156,27 @@ CHECKS = {
             "comparison of names and spelled-out annotations. Every signature is re-run with its element alone.",
             "batching may let a neighbour supply an import an element needs (isolation re-runs only for seen signatures)",
             "4/C19"),
+    "C13": ("exploration",
+            "exhaustive metamorphic enumeration: all subsets of error lines x ignore kinds, all codes disabled, vs a reference model",
+            "For every single-step corpus program (Q: 12 seed-selected check-*.test files, T: all 99): every subset of its "
+            "annotatable error lines (all when <=5, else size <=2 + full) x {bare, exact code, super-code, wrong code, two "
+            "codes} x unused-ignore reporting off/on, and every error code present disabled globally / per-module / "
+            "re-enabled / via its super-code; expected output from a ~60-line model over the baseline run's ErrorInfo objects "
+            "(origin span, code, sub_code_of, blocker, parent notes), rendered by mypy's own sort/format pipeline; exit "
+            "status 0/1/2 rule through mypy.main.main.",
+            "fixture stubs; lines where appending a comment changes the token structure are skipped and counted", "4/C13"),
+    "C14": ("exploration",
+            "exhaustive differential enumeration of a syntax grammar, token corruptions and the corpus under both parsers",
+            "Corpus programs without type comments x target versions, a syntax grammar (163 statement x 145 expression forms, "
+            "patterns, type expressions, 35 layouts) enumerated to depth 2 (Q: products with a representative factor, T: "
+            "full), and every single-token corruption {delete, duplicate, 14 replacements} of depth-1 programs and a corpus "
+            "slice: real builds with native_parser off/on, columns and ends shown; identical diagnostics at two strengths, "
+            "blocker iff blocker, and every position of either parser inside the file.",
+            "fixture stubs; targets 3.10-3.14 (the tree rejects 3.9); syntax newer than the running interpreter excluded", "4/C14"),
 }
 
-NOT_BUILT = {}
+NOT_BUILT = {"C20": "check built (mc/checks/c20.py) but its genuine findings on the unchanged tree are still being collected by a "
+                    "thorough run; it is registered once every signature is recorded in known_findings.jsonl"}
 
 
 def main() -> None:
